@@ -374,12 +374,21 @@ fn check_with(sim: &mut DriverSim, case: &Case, ctx: &mut Ctx) {
                     Target::Version(t) => v.values[t as usize % nver] == rec.value,
                     Target::Other => false,
                 };
-                if by_quorum && target_ok {
-                    continue;
-                }
                 let merged_ok = versions_seen.len() > 1 && is_merge(case, &v, &versions_seen, rec);
                 if merged_ok {
                     ctx.label("merged_result");
+                    continue;
+                }
+                if versions_seen.len() > 1 {
+                    // peers returned differing content: the caller must get the full set of versions
+                    // (an error) or the deterministic merge, never one of the versions as if agreed
+                    ctx.fail(
+                        "one_version_returned_although_peers_returned_differing_content",
+                        format!("{at}: {} versions were received before completion (distinct peers per version {seen:?}), yet one of them (version {matching:?}) was returned as the value", versions_seen.len()),
+                    );
+                    continue;
+                }
+                if by_quorum && target_ok {
                     continue;
                 }
                 // classify
